@@ -224,6 +224,8 @@ def random_ops(r, maxlen):
 
 def cases(seed, tier, shard, nshards):
     b = budget(tier)
+    for i in common.sharded(len(ALIAS_PROBES), shard, nshards):
+        yield {'kind': 'alias-probe', 'program': ALIAS_PROBES[i][0], 'recorded': ALIAS_PROBES[i][1]}
     for seq in exhaustive(b['exh_len'], shard, nshards):
         yield {'kind': 'api', 'ops': seq, 'exh': 1}
     for i in common.sharded(b['n_api'], shard, nshards):
@@ -249,9 +251,55 @@ def env_classes():
     return _env_classes
 
 
+# Known finding `character-alias-substituted-when-tokenized`: \let\a=<character> is kept in a table of its own that the
+# tokenizer consults when it forms the token \a, so (i) a later \def\a / \let\a cannot name \a any more, (ii) an alias made
+# inside an argument that was already read does not reach the rest of that argument.  The generated programs stay outside this
+# zone (pvmon/gen/scopes.py: alias names are not otherwise defined, no \let of a character inside a command argument); these
+# fixed programs pin the defect down: (program, text plasTeX gives on the pinned tree).
+ALIAS_PROBES = [
+    ['\\def\\zqa{V}\\let\\zqa=u\\def\\zqa{X}\\zqa ', 'u'],
+    ['\\let\\zqa=u{\\def\\zqa{X}\\zqa }\\zqa ', 'uu'],
+    ['\\def\\zqa{V}\\def\\zqc{W}\\let\\zqc=v\\let\\zqc=\\zqa [\\zqc ]', '[v]'],
+    ['\\def\\zqa{V}\\emph{\\global\\let\\zqa=u\\emph{\\textbf{\\def\\zqa{X}\\zqa }\\zqa }\\zqa }\\zqa ', 'XVVu'],
+    ['\\begin{center}\\global\\let\\zqla=u {\\let\\zqla=v \\zqla}\\zqla\\end{center}[\\zqla]', 'uu[u]'],
+]
+
+
+def run_alias_probe(case, st):
+    from plasTeX.TeX import TeX
+    p, recorded = case['program'], case['recorded']
+    want = strip(E.run(p)[0])
+    common.plastex_reset()
+    try:
+        tex = TeX()
+        tex.input(p)
+        doc = tex.parse()
+        got = strip(doc.textContent)
+        depth = len(doc.context.contexts)
+    except common.CaseTimeout:
+        raise
+    except Exception as e:
+        st.violation('character-alias/raises-' + type(e).__name__, case, 'program %r raised %s' % (p, traceback.format_exc()[-400:]))
+        return {'nontrivial': True}
+    finally:
+        common.plastex_reset()
+    st.counters['alias_probes'] += 1
+    if depth != 1:
+        st.violation('character-alias/context-depth', case, 'program %r leaves the context stack at depth %d' % (p, depth))
+    if got == want:
+        st.notes['known finding character-alias-substituted-when-tokenized does not reproduce on %r' % p] += 1
+    elif got == recorded:
+        st.violation('character-alias-substituted-when-tokenized', case, 'program %r: TeX gives %r, plasTeX gives %r' % (p, want, got))
+    else:
+        st.violation('character-alias/other-output', case, 'program %r: TeX gives %r, the recorded defective output is %r, plasTeX gives %r' % (p, want, recorded, got))
+    return {'nontrivial': True, 'sample': {'program': p}}
+
+
 def run(case, st):
     if case['kind'] == 'api':
         return run_api(case, st)
+    if case['kind'] == 'alias-probe':
+        return run_alias_probe(case, st)
     return run_tex(case, st)
 
 
